@@ -421,9 +421,23 @@ func c11PongCallbackRun(e *Env) {
 	}
 	var cancelPing func()
 	var err error
-	if w.UCC != nil {
+	viaSignal := w.UCC == nil && t.Chance(1, 2)
+	switch {
+	case w.UCC != nil:
 		cancelPing, err = w.UCC.AsyncPing(cb)
-	} else {
+	case viaSignal:
+		// stream transports: the callback for received signalling messages (SetTCPSignalReceivedHandler) is told about
+		// the pong of an ordinary ping
+		e.Probe("nested.requestFromSignalCallback")
+		once := false
+		w.TEP.CC.SetTCPSignalReceivedHandler(func(code codes.Code) {
+			if code == codes.Pong && !once {
+				once = true
+				cb()
+			}
+		})
+		cancelPing, err = w.TEP.CC.AsyncPing(func() {})
+	default:
 		cancelPing, err = w.TEP.CC.AsyncPing(cb)
 	}
 	if err != nil {
@@ -464,7 +478,11 @@ func c11PongCallbackRun(e *Env) {
 	ret, nerr := returned, nestedErr
 	e.mu.Unlock()
 	if !ret {
-		e.Violate("C11.R4", "nested-operation-stalled:request-from-pong-callback", "the answer to the request issued by the AsyncPing callback was handed to the connection a second ago and the request has not returned: the callback runs on the goroutine that reads the connection, nothing is processed while it waits")
+		sig, what := "nested-operation-stalled:request-from-pong-callback", "AsyncPing callback"
+		if viaSignal {
+			sig, what = "nested-operation-stalled:request-from-signal-callback", "signal-received callback"
+		}
+		e.Violate("C11.R4", sig, "(%s) the answer to the request issued by the AsyncPing callback was handed to the connection a second ago and the request has not returned: the callback runs on the goroutine that reads the connection, nothing is processed while it waits", what)
 	} else if nerr != nil {
 		e.Violate("C11.R4", "nested-operation-failed:request-from-pong-callback", "the request issued by the AsyncPing callback failed although its answer was handed to the connection: %s", trimErr(nerr))
 	}
